@@ -190,7 +190,10 @@ Fixpoint composite_stream {X : Type} (release_first : bool) (refs0 : Z)
            message table and sequence as for kind 2 (minPool only selects the allocator path in Go).
            output "xseq:" + results joined by "/", each = the result as for kind 2 (record after the extraction)
            + ";" + for every drop transform "n.bytes.n!.bytes!" (custom counters of its label and of "!"label),
-           joined by "," *)
+           joined by ","
+   kind 4: the same arguments as kind 3, but the counters are read only ONCE, after the last message (no
+           UpdateMetrics between the messages): output "xend:" + per message "ok:<record>" | "drop" | "err" | "panic"
+           joined by "/" + ";" + the counters + ";" + the custom counters as above *)
 
 Fixpoint decode_xforms (n : nat) (zs : list Z) (ss : list bytes) : list xform :=
   match n with
@@ -223,8 +226,40 @@ Definition show_xresult (res : outcome (option record) * counters * xstate) : by
   | (o, c, (xs, lab)) => show_result true (o, c) ++ 59 :: show_labels xs lab
   end.
 
+Definition str_xend : bytes := [120;101;110;100].            (* "xend" *)
+
+Definition show_outcome (o : outcome (option record)) : bytes :=
+  match o with
+  | Ok (Some r) => str_ok ++ colon :: show_record true r
+  | Ok None => str_drop
+  | Err _ => str_err
+  | Panic _ => str_panic
+  end.
+
+(* counters and extraction state after the last message of a stream (the initial ones for no message) *)
+Definition stream_last (rs : list (outcome (option record) * counters * xstate)) (c0 : counters) (x0 : xstate)
+  : counters * xstate :=
+  last (map (fun r => (snd (fst r), snd r)) rs) (c0, x0).
+
 Definition run_case_C09 (c : case) : bytes :=
   match c_kind c with
+  | 4 =>
+    let mm := Z.to_N (zarg c 0) in
+    let mr := Z.to_N (zarg c 1) in
+    match new_parser mm mr [] with
+    | Ok cfg =>
+      let nx := Z.to_nat (zarg c 5) in
+      let xs := decode_xforms nx (skipn 6 (c_zargs c)) (skipn 3 (c_sargs c)) in
+      let table := (sarg c 0 ++ repeat_app (sarg c 1) (Z.to_nat (zarg c 3)) (sarg c 2)) :: skipn (3 + 2 * nx) (c_sargs c) in
+      let msgs := map (fun i => nth (Z.to_nat i) table []) (skipn (6 + 5 * nx) (c_zargs c)) in
+      let rs := composite_stream false (zarg c 4) extract_transforms cfg counters_zero (xs, []) msgs in
+      match stream_last rs counters_zero (xs, []) with
+      | (cf, (xsf, labf)) =>
+        str_xend ++ colon :: join 47 (map (fun r => show_outcome (fst (fst r))) rs)
+                 ++ 59 :: show_counters cf ++ 59 :: show_labels xsf labf
+      end
+    | _ => str_cfgerr
+    end
   | 3 =>
     let mm := Z.to_N (zarg c 0) in
     let mr := Z.to_N (zarg c 1) in
